@@ -131,6 +131,13 @@ def gen_donor(sess: Session, rng: random.Random, types: tuple, *, safe: bool, in
         return {'tok': t.__name__, 'v': enc(v)}
     if t is models.NumberAddExpr:
         return {'add_expr': docgen.expr_text(rng)}
+    if t.__name__ in FROM_VALUE_CLASSES and rng.random() < 0.3:
+        r = gen_from_value(rng, t.__name__, indent=indent or '    ')
+        if r is not None:
+            if t.__name__ in ('Posting', 'MetaItem') and not indent and safe:
+                pass
+            else:
+                return r
     text = docgen.snippet(rng, t, indent=indent, safe=safe)
     if text is None:
         return None
@@ -158,6 +165,126 @@ def _indent_fits(m: Any, indent: str, safe: bool) -> bool:
     return True
 
 
+FROM_VALUE_CLASSES = ['Open', 'Close', 'Balance', 'Pad', 'Note', 'Document', 'Event', 'Query', 'Price', 'Commodity', 'Custom',
+                      'Option', 'Include', 'Plugin', 'Pushtag', 'Poptag', 'Pushmeta', 'Popmeta', 'MetaItem', 'Amount',
+                      'UnitPrice', 'TotalPrice', 'Posting', 'Transaction', 'CostSpec']
+
+
+def gen_from_value(rng: random.Random, cls_name: str, indent: str = '    ', depth: int = 0) -> Optional[dict]:
+    """A JSON recipe for Class.from_value(...) with a random subset of the optional arguments."""
+    import inspect
+    cls = getattr(models, cls_name)
+    try:
+        params = inspect.signature(cls.from_value).parameters
+    except (AttributeError, ValueError):
+        return None
+    args: dict = {}
+
+    def opt(p: float = 0.5) -> bool:
+        return rng.random() < p
+
+    def simple_meta_value():
+        k = rng.randrange(5)
+        return [enc(docgen.string_value(rng)), enc(docgen.date_value(rng)), enc(docgen.number_value(rng)), rng.random() < 0.5, None][k]
+    for name, p in params.items():
+        optional = p.default is not inspect.Parameter.empty
+        if name == 'date':
+            args[name] = enc(docgen.date_value(rng))
+        elif name in ('account', 'source_account'):
+            args[name] = docgen.account(rng)
+        elif name == 'currency':
+            if cls_name in ('UnitPrice', 'TotalPrice', 'CostSpec') and opt(0.3):
+                args[name] = None
+            else:
+                args[name] = docgen.currency_no_slash(rng)
+        elif name == 'currencies':
+            args[name] = [docgen.currency_no_slash(rng) for _ in range(rng.choice([0, 1, 2, 3]))]
+        elif name in ('number', 'number_per', 'number_total', 'tolerance'):
+            if (optional or name in ('tolerance', 'number_per', 'number_total') or cls_name in ('UnitPrice', 'TotalPrice', 'Posting')) and opt(0.4):
+                args[name] = None
+            else:
+                args[name] = enc(docgen.signed_number_value(rng) if name == 'number' else docgen.number_value(rng))
+        elif name in ('comment', 'filename', 'type', 'description', 'name', 'query_string', 'config', 'booking', 'label'):
+            if optional and opt(0.5):
+                continue
+            args[name] = 'STRICT' if name == 'booking' else docgen.string_value(rng, multiline=(name in ('comment', 'description', 'query_string')))
+        elif name in ('payee', 'narration'):
+            args[name] = None if opt(0.4) else docgen.string_value(rng)
+        elif name in ('key', 'value') and cls_name == 'Option':
+            args[name] = docgen.string_value(rng, multiline=False)
+        elif name == 'key':
+            args[name] = docgen.meta_key_value(rng)
+        elif name == 'value':
+            args[name] = simple_meta_value()
+        elif name == 'values':
+            args[name] = [[enc(docgen.string_value(rng, multiline=False)), enc(docgen.date_value(rng)), rng.random() < 0.5,
+                           enc(docgen.number_value(rng))][rng.randrange(4)] for _ in range(rng.choice([0, 1, 2, 4]))]
+        elif name == 'tag':
+            args[name] = docgen.taglink_value(rng)
+        elif name in ('tags', 'links'):
+            args[name] = [docgen.taglink_value(rng) for _ in range(rng.choice([0, 0, 1, 2]))]
+        elif name in ('leading_comment', 'trailing_comment'):
+            if opt(0.3):
+                args[name] = docgen.block_comment_value(rng)
+        elif name == 'inline_comment':
+            if opt(0.3):
+                args[name] = docgen.inline_comment_value(rng)
+        elif name == 'meta':
+            if opt(0.4):
+                args[name] = {docgen.meta_key_value(rng) + str(i): simple_meta_value() for i in range(rng.choice([1, 2, 3]))}
+        elif name == 'indent':
+            args[name] = indent
+        elif name == 'indent_by':
+            if opt(0.3):
+                args[name] = rng.choice(['  ', '\t', '    ', '      '])
+        elif name == 'flag':
+            if cls_name == 'Transaction':
+                args[name] = rng.choice(docgen.FLAGS)
+            elif opt(0.3):
+                args[name] = rng.choice(docgen.FLAGS)
+        elif name == 'merge':
+            args[name] = opt(0.2)
+        elif name == 'amount':
+            args[name] = {'from_value': 'Amount', 'args': gen_from_value(rng, 'Amount')['args']}
+        elif name == 'postings':
+            if depth > 0:
+                args[name] = []
+            else:
+                args[name] = [gen_from_value(rng, 'Posting', indent='    ', depth=1) for _ in range(rng.choice([0, 1, 2, 3]))]
+        elif name == 'cost':
+            if opt(0.3):
+                r = gen_from_value(rng, 'CostSpec', depth=depth + 1)
+                a = r['args']
+                if a.get('number_per') is not None and a.get('number_total') is not None and a.get('currency') is None:
+                    a['currency'] = 'USD'
+                args[name] = r
+        elif name == 'price':
+            if opt(0.3):
+                args[name] = gen_from_value(rng, rng.choice(['UnitPrice', 'TotalPrice']), depth=depth + 1)
+        else:
+            if not optional:
+                return None
+    if cls_name == 'CostSpec' and args.get('number_per') is not None and args.get('number_total') is not None and args.get('currency') is None:
+        args['currency'] = 'USD'     # (both numbers without a currency is the documented rejection)
+    return {'from_value': cls_name, 'args': args}
+
+
+def build_from_value(recipe: dict) -> Any:
+    cls = getattr(models, recipe['from_value'])
+
+    def dv(x: Any) -> Any:
+        if isinstance(x, dict) and 'from_value' in x:
+            return build_from_value(x)
+        if isinstance(x, dict) and ('dec' in x or 'date' in x):
+            return dec(x)
+        if isinstance(x, dict):
+            return {k: dv(v) for k, v in x.items()}
+        if isinstance(x, list):
+            return [dv(v) for v in x]
+        return x
+    return cls.from_value(**{k: dv(v) for k, v in recipe['args'].items()})
+
+
 _CLASS_BY_NAME: dict[str, type] = {}
 for _c in list(models.TREE_MODELS.values()) + list(models.TOKEN_MODELS.values()):
     _CLASS_BY_NAME[_c.__name__] = _c
@@ -182,6 +309,8 @@ def make_donor(sess: Session, recipe: Any) -> Any:
         return _CLASS_BY_NAME[recipe['tok_default']].from_default()
     if 'tok_raw' in recipe:
         return _CLASS_BY_NAME[recipe['tok_raw']].from_raw_text(recipe['raw'])
+    if 'from_value' in recipe:
+        return build_from_value(recipe)
     if 'parse' in recipe:
         cls = _CLASS_BY_NAME[recipe['parse']]
         try:
